@@ -267,7 +267,7 @@ def run_labels(rep: Report, n: int, seed: int) -> None:
                     why = f'breakpoints for addresses={sorted(addrs)} labels={sorted(exact)} substrings={sorted(subs)} resolve to {sorted(got, key=str)}, expected {sorted(want)}'
                 else:
                     for x in exact:
-                        if x in labels and got[labels[x]] != x and not any(labels[y] == labels[x] for y in exact if y != x):
+                        if x in labels and got[labels[x]] != x and not any(labels[y] == labels[x] for y in exact if y != x and y in labels):
                             why = f'an exact label breakpoint is not named by its label ({got[labels[x]]!r} for {x!r})'
             if why:
                 rep.violation(Violation('bounded:label_table.exact', f'w={w}: {why}', dict(sources=texts, w=w), True, key=why.split(':')[0][:30]))
